@@ -453,7 +453,13 @@ def schedule(modname, fams, idxs, opts, jobs):
                 results.append(r if r is not None else _dead_result(fams[i], 'worker died'))
                 del running[i]
             elif not p.is_alive():
-                results.append(_dead_result(fams[i], 'worker died without a result (exit code %s)' % p.exitcode))
+                r = None
+                if pr.poll(0.2):        # the result may have arrived between the two tests
+                    try:
+                        r = pr.recv()
+                    except EOFError:
+                        r = None
+                results.append(r if r is not None else _dead_result(fams[i], 'worker died without a result (exit code %s)' % p.exitcode))
                 del running[i]
             elif time.time() > dl:
                 p.kill()
